@@ -900,6 +900,37 @@ def c09_seqshape(ctx):
         out.inst(key, not probs, 'closures in order %s' % order, sample={'kernel': key_of(b), 'closure_order': order, 'ret': t_str(r.ret)[:200]})
         for i, (msg, line, bd) in enumerate(probs):
             out.fail(key + '/' + msg.split('`')[1] if '`' in msg else key + '/shape%d' % i, '%s: %s' % (key_of(b), msg), bd.where(line))
+    # sequential work written inline on the sequential-only route of a dispatching body
+    for bn in sorted(S.seq_inline):
+        b = F.bodies[bn]
+        cfg = ctx.cfg(b)
+        key = 'C09-SEQSHAPE/%s/inline' % key_of(b)
+        probs = []
+        n_seq = 0
+        for (sbn, cbb, sbb, tt, ft) in S.seq_switches:
+            if sbn != bn:
+                continue
+            for x in sorted(cfg.reach(tt) - cfg.reach(ft)):
+                t = b.blocks[x]['term']
+                if t['t'] != 'call' or t.get('exp'):
+                    continue
+                d = decl(t)
+                if d.startswith(ITER):
+                    m = d[len(ITER):]
+                    if m not in SEQ_ALLOWED_ITER or m in ITER_REORDER:
+                        probs.append(('order-insensitive or non-lazy iterator method `%s`' % m, t.get('line')))
+                if is_coniter_call(t):
+                    if method(t) == 'into_seq_iter':
+                        n_seq += 1
+                    elif method(t) in SOURCE_CONSUMERS or method(t) == 'skip_to_end':
+                        probs.append(('pulls from the concurrent iterator with `%s` instead of into_seq_iter' % method(t), t.get('line')))
+                if is_buffered_next(t):
+                    probs.append(('chunked `pull` on the sequential route', t.get('line')))
+        if n_seq != 1:
+            probs.append(('%d into_seq_iter() calls on the sequential route (expected exactly one)' % n_seq, None))
+        out.inst(key, not probs, 'inline sequential route', sample={'body': key_of(b), 'into_seq_iter_calls': n_seq})
+        for i, (msg, line) in enumerate(probs):
+            out.fail(key + ('/' + msg.split('`')[1] if '`' in msg else '/shape%d' % i), '%s (sequential route): %s' % (key_of(b), msg), b.where(line))
     out.floor('seq_kernels', len(S.seq_kernels), 6 if not ctx.fixture else 0)
     return out
 
@@ -1196,4 +1227,32 @@ def c15_stack(ctx):
                                   'calling thread (num_threads(1) runs them there), so whether a computation overflows its stack depends on the parameters'
                              % key_of(b), b.where(t.get('line')))
     out.count('thread_api_calls', n)
+    return out
+
+
+# ======================================================================================= C09-NOCONC
+@rule('C09-NOCONC', 'a concurrent capacity reservation happens only on the non-sequential route: with num_threads(1) nothing is written concurrently')
+def c09_noconc(ctx):
+    out = RuleOut('C09-NOCONC')
+    S = ctx.slots
+    F = ctx.facts
+    n = 0
+    for b in F.fn_bodies():
+        cfg = None
+        for bb, t in b.calls():
+            if t.get('exp') or 'concurrent_capacity' not in method(t) or not method(t).startswith('reserve'):
+                continue
+            n += 1
+            cfg = cfg or ctx.cfg(b)
+            key = 'C09-NOCONC/%s/%s' % (key_of(b), method(t))
+            ok = False
+            for (bn, cbb, sbb, tt, ft) in S.seq_switches:
+                if bn == b.name and tt != ft and cfg.edge_dominates(sbb, ft, bb) and bb in cfg.reach(ft):
+                    ok = True
+            out.inst(key, ok, res(t), sample={'fn': key_of(b), 'reservation': res(t), 'guarded_by_not_sequential': ok})
+            if not ok:
+                out.fail(key, '%s calls %s on a path that sequential mode (num_threads(1)) takes as well: the std chain reserves nothing, while this reservation can '
+                              'fail or exhaust memory for targets the dependency cannot grow concurrently (a Doubling SplitVec whose fragment table must exceed 32 '
+                              'entries, a Linear SplitVec with small fragments and a source of unknown length)' % (key_of(b), res(t)), b.where(t.get('line')))
+    out.floor('concurrent_reservations', n, 1 if not ctx.fixture else 0)
     return out
